@@ -507,3 +507,17 @@ Proof.
   change re_LOG_REF_PATTERN with (RCat RStart re_documented).
   rewrite (captures_at_zero _ _ _ _ Hc H0), H1. exact Hp.
 Qed.
+
+(* ref-like text elsewhere: when the first match of the documented regex starts after offset 0
+   (or there is none), the message is not referenced for Breadlog *)
+Theorem later_match_not_reference s :
+  match captures re_documented s with
+  | None => True
+  | Some c => exists i e, get_cap c 0 = Some (i, e) /\ 0 < i
+  end ->
+  extract_reference the_params s = None.
+Proof.
+  intros H. destruct (extract_reference the_params s) as [n|] eqn:E; [|reflexivity].
+  apply documented_regex_agrees in E as (c & se & Hc & _ & _ & e0 & H0).
+  rewrite Hc in H. destruct H as (i & e & Hg & Hi). rewrite Hg in H0. injection H0 as -> _. lia.
+Qed.
